@@ -368,7 +368,7 @@ func (r *sessRunner) history(n int, h sessHist) []sessEvent {
 	if !ok {
 		return nil
 	}
-	in, ev := put("in"+h.SrcExt, d1)
+	in, ev := put("Input"+h.SrcExt, d1) // capitals in the name: only the extension is case-insensitive
 	ev.First = true
 	evs = append(evs, ev)
 	in2 := ""
@@ -381,10 +381,10 @@ func (r *sessRunner) history(n int, h sessHist) []sessEvent {
 	if needs2 {
 		d2, _ := r.pick(h.Src, h.Doc2)
 		var ev2 sessEvent
-		in2, ev2 = put("second"+strings.ToLower(h.SrcExt), d2)
+		in2, ev2 = put("Second"+strings.ToLower(h.SrcExt), d2)
 		evs = append(evs, ev2)
 	}
-	out := filepath.Join(dir, "out"+h.DstExt)
+	out := filepath.Join(dir, "Out"+h.DstExt)
 	if h.Entry == "lib" {
 		ev, s := r.observeOpt(n, in, at, h.Ign)
 		evs = append(evs, ev)
